@@ -12,7 +12,9 @@ from lib.vlib import *
 META = {
     "property_id": "C07",
     "technique": "Coq proof over a Gallina model of pickle/encode.go + decode.go (heap with sharing and cycles) + "
-                 "byte-exact correspondence on generated value graphs; opcode constants regenerated from the source on every run",
+                 "byte-exact correspondence on generated value graphs; opcode constants regenerated from the source on every run; "
+                 "instance isolation: the same values encoded/decoded by several codec instances run interleaved under seeded "
+                 "schedules must give the bytes/graphs of the stand-alone runs",
     "level_text": "Theorems (Coq, unbounded): decode(encode v) = v for every integer (all four width classes incl. the decimal "
                   "INT form, with a proved UnmarshalText(MarshalText z) = z), every string/bytes of length < 2^32, every float, "
                   "every arbitrarily nested immutable value (tree_roundtrip, tuples of any arity; tree_encodable: the encoder "
@@ -30,7 +32,13 @@ META = {
                   "the Go code behaves as the model says (fatal stack overflow; a decoded graph with the object duplicated). "
                   "The model is tied to encode.go/decode.go by byte-exact comparison of encodings and "
                   "exact comparison of canonical graph dumps on generated values (every width boundary, length class, "
-                  "container size class at every nesting position, aliasing patterns, host objects shared/nested).",
+                  "container size class at every nesting position, aliasing patterns, host objects shared/nested). "
+                  "interleaved_codecs_isolated: for any number of encoder instances whose Write calls are interleaved by any "
+                  "schedule, every Writer ends up with exactly its instance's stand-alone encoding, which decodes to a graph "
+                  "isomorphic to that instance's value; the premise that instances share no state is checked on the code by the "
+                  "isolation harness (cooperative scheduler with hand-over at every Write/Read/Pickle/Unpickle call-out, "
+                  "policies rr/rand/burst, readers delivering 1..n bytes per call, plus free-running goroutines over io.Pipe): "
+                  "every round-trip case and an opcode zoo, each instance compared byte-for-byte with its run alone.",
     "level_note": "Trusted: Coq kernel; the model's transcription of Go (validated by the correspondence run only); Go's "
                   "hash function for dict/set keys is abstracted to key equality (exact unless unequal tuple keys nested "
                   "deeper than 10 collide in a 32-bit hash). Host objects that reach themselves through their own "
@@ -41,7 +49,10 @@ META = {
                   "shape is a directed case of every run (its round-trip oracle failure is reported as KNOWN-FINDING, any "
                   "other oracle failure is a VIOLATION), the first runs in a process of its own in the thorough tier. heap_roundtrip's host part is for the object-preserving pair of the "
                   "harness (host_pair), not for dawn's envPickler/envUnpickler, which rebuilds functions (C08/C01 territory). "
-                  "Only *List/*Dict among Sequence/IterableMapping hosts. Transitivity of iso is not proved.",
+                  "Only *List/*Dict among Sequence/IterableMapping hosts. Transitivity of iso is not proved. Isolation: the "
+                  "deterministic schedules interleave instances only at call-outs of the package; state shared between instances "
+                  "that is written and read with no call-out in between is only reachable by the free-running groups (real "
+                  "parallelism, detection not deterministic).",
     "design_ref": "DESIGN.md §6 C07",
 }
 
@@ -599,17 +610,173 @@ def random_graph(rng):
 
 
 # ---------------------------------------------------------------------------------------------------
+# instance isolation: the same values, encoded and decoded by several codec instances run interleaved
+# (harness/overlay/pickle/zz_verif_c07_conc_test.go); every instance must behave exactly as it does alone
+
+COOP_POLICIES = ["rr", "rand", "burst"]
+
+
+def opcode_zoo():
+    """Small values that between them emit every opcode the encoder has (one-byte opcodes, opcodes with operands,
+    the decimal INT form, both string headers, MARK-delimited and short tuples, every container kind, host objects,
+    BINGET) -- so that in a pair of different zoo members the two streams differ at almost every write."""
+    z = []
+
+    def add(nodes, root):
+        z.append(("zoo", nodes, root))
+
+    for v in (NONE, TRUE, FALSE, I(0), I(255), I(256), I(65536), I(-1), I(2**31), I(-10**30), ("G", fbits(1.5)), S(""), S("ab"),
+              B(b""), B(b"\x00\xff"), S("x" * 256), T(), T(NONE), T(I(1), I(2)), T(I(1), I(2), I(3)), T(I(1), I(2), I(3), I(4)),
+              T(T(TRUE), T(FALSE, NONE))):
+        add([], v)
+    for node in (("L", []), ("L", [NONE]), ("L", [I(1), I(2)]), ("D", []), ("D", [S("k"), TRUE]), ("D", [I(1), I(2), I(3), I(4)]),
+                 ("E", []), ("E", [FALSE]), ("E", [S("a"), S("b")]), ("O", b"m", b"N", []), ("O", b"mod", b"Name", [NONE, I(7)])):
+        add([node], R(0))
+    add([("L", [R(0)])], R(0))
+    add([("L", [I(1)])], T(R(0), R(0)))
+    add([("O", b"m", b"n", [R(1)]), ("L", [TRUE])], T(R(0), R(0), R(1)))
+    return z
+
+
+def gen_isolation(rng, cases, quick):
+    """Groups of codec instances to run interleaved: list of (gid, policy, seed, chunk, [(member id, class, description)]).
+    Every generated round-trip case (all classes of gen_c07) is a member of at least one cooperative group; the opcode zoo is
+    paired systematically; a few groups run free on real goroutines."""
+    groups = []
+
+    def add(policy, chunk, members):
+        if len(members) >= 1:
+            groups.append((len(groups), policy, rng.randrange(1, 2**31), chunk, members))
+
+    zoo = [("z%d" % k, c[0], go_desc(c[1], c[2])) for k, c in enumerate(opcode_zoo())]
+    n = len(zoo)
+    # (a) the zoo: each member against its neighbour in strict alternation, against a random other member under a random
+    #     schedule with a one-byte reader, then all of them at once
+    for k in range(n):
+        add("rr", 0, [zoo[k], zoo[(k + 1) % n]])
+        add("rand", 1, [zoo[k], zoo[rng.randrange(n)]])
+    add("rand", 0, zoo)
+    add("burst", 3, zoo)
+    add("serial", 0, zoo[:8])                      # control: nothing interleaves, must trivially agree
+    # (b) every round-trip case, in random groups of 2..8, policies and reader chunk sizes in rotation
+    members = [("%d" % i, c[0], go_desc(c[1], c[2])) for i, c in enumerate(cases) if c[0] != KNOWN_HOST_CYCLE_CLASS]
+    for rep in range(1 if quick else 4):
+        order = members[:]
+        rng.shuffle(order)
+        k = 0
+        while k < len(order):
+            size = rng.choice([2, 2, 3, 4, 8])
+            grp = order[k:k + size]
+            k += size
+            if len(grp) == 1:
+                grp.append(rng.choice(zoo))
+            big = max(len(m[2]) for m in grp) > 20000
+            chunk = 0 if big else rng.choice([0, 1, 3, 4096])
+            add(COOP_POLICIES[len(groups) % 3], chunk, grp)
+    # (c) free-running goroutines (io.Pipe between each encoder and its decoder; a writer that yields before it copies)
+    small = [m for m in members if len(m[2]) < 3000]
+    for k in range(6 if quick else 60):
+        add("pipe" if k % 2 == 0 else "gosched", 0, rng.sample(zoo + small, 8))
+    return groups
+
+
+def conc_line(g):
+    gid, policy, seed, chunk, members = g
+    return "conc\t%d\t%s\t%d\t%d\t%s" % (gid, policy, seed, chunk, "\t".join("%s=%s" % (m[0], m[2]) for m in members))
+
+
+def read_conc(path):
+    """-> {"done": {gid: (tasks, steps)}, "oracles": [fields], "begun": gid or None}"""
+    out = {"done": {}, "oracles": [], "begun": None}
+    if os.path.exists(path):
+        for line in open(path, errors="replace"):
+            f = line.rstrip("\n").split("\t")
+            if f[0] == "ORACLE":
+                out["oracles"].append(f)
+            elif f[0] == "cbegin":
+                out["begun"] = int(f[1])
+            elif f[0] == "conc" and len(f) >= 4:
+                out["done"][int(f[1])] = (int(f[2]), int(f[3]))
+    return out
+
+
+def report_isolation(ctx, groups):
+    """Oracle failures of the isolation harness -> violations (found_input=True); coverage numbers. Returns the number of
+    failures."""
+    conc = ctx.conc or {"done": {}, "oracles": [], "begun": None}
+    byid = {g[0]: g for g in groups}
+    pol = {}
+    for g in groups:
+        pol[g[1]] = pol.get(g[1], 0) + 1
+    fail_pol = {}
+    for f in conc["oracles"]:
+        k = byid[int(f[2])][1]
+        fail_pol[k] = fail_pol.get(k, 0) + 1
+    ctx.coverage["correspondence"]["isolation"] = {
+        "groups": len(groups), "groups_run": len(conc["done"]), "policies": pol,
+        "members": sum(t for t, _ in conc["done"].values()),
+        "scheduler_steps": sum(s for _, s in conc["done"].values()),
+        "failures": len(conc["oracles"]),
+        "failures_by_policy": fail_pol,
+        "rule": "each group: one Encoder per member plus one Decoder per member (fed the member's stand-alone encoding), own "
+                "Writer/Reader/memo/value each, run under one schedule with hand-over points at every call out of the package "
+                "(Write entry/return, Read entry/after fill, Pickle, Unpickle); oracle: bytes written and graph decoded are "
+                "identical to the same instance run alone. Members: opcode zoo pairs + every round-trip case."}
+    how = "TestVerifPickleIsolation in harness/overlay/pickle/zz_verif_c07_conc_test.go: VERIF_CONC_IN line "
+    shown = 0
+    for f in conc["oracles"]:
+        gid = int(f[2])
+        g = byid[gid]
+        mem = dict((m[0], m) for m in g[4])
+        m = mem.get(f[3], ("?", "?", "?"))
+        others = [x[2][:120] for x in g[4] if x[0] != f[3]]
+        replay = {"oracle": f[1], "policy": g[1], "schedule_seed": g[2], "reader_chunk": g[3],
+                  "member": {"id": m[0], "class": m[1], "description": m[2][:100000]},
+                  "group": [{"id": x[0], "class": x[1], "description": x[2][:20000]} for x in g[4]],
+                  "detail": f[4:], "how": how + conc_line(g)[:200000]}
+        if f[1] == "isolation-encode":
+            what = ("an Encoder's output depends on other codec instances: encoding %s while %d other instance(s) (e.g. of %s) "
+                    "run interleaved (policy %s, seed %d) wrote %s; alone it writes %s (first difference at byte %s)"
+                    % (m[2][:120], 2 * len(g[4]) - 1, (others or ["-"])[0], g[1], g[2], f[5][:140], f[6][:140], f[4]))
+        elif f[1] == "isolation-decode":
+            what = ("a Decoder's result depends on other codec instances: decoding the encoding of %s while %d other instance(s) "
+                    "run interleaved (policy %s, seed %d, reader chunk %d) gave %s; alone it gives %s"
+                    % (m[2][:120], 2 * len(g[4]) - 1, g[1], g[2], g[3], f[4][:140], f[5][:140]))
+        else:
+            what = "isolation harness control group disagrees with itself on %s: %s" % (m[2][:120], f[4:])
+        if shown < 3:
+            ctx.violation("implementation violates C07 oracle %s: %s" % (f[1], what), replay)
+            shown += 1
+    return len(conc["oracles"])
+
+
+# ---------------------------------------------------------------------------------------------------
 # harness drivers
 
 
-def run_pickle_harness(ctx, lines, tag):
-    """lines: list of input lines; returns (rc, output text, {id: fields}, oracle lines)."""
+def run_pickle_harness(ctx, lines, tag, conc_lines=None):
+    """lines: list of input lines; returns (rc, output text, {id: fields}, oracle lines).
+    conc_lines (C07 only): input of the instance-isolation harness, run in the same `go test` process after the
+    round-trip cases; its output is left in ctx.conc (see read_conc)."""
     inp = os.path.join(ctx.tmp, "%s.in" % tag)
     outp = os.path.join(ctx.tmp, "%s.out" % tag)
     with open(inp, "w") as f:
         f.write("\n".join(lines) + "\n")
-    rc, o = ctx.go_overlay_test("pickle", {"zz_verif_c07_test.go": os.path.join(HARNESS, "overlay/pickle/zz_verif_c07_test.go")},
-                                "^TestVerifPickle$", {"VERIF_IN": inp, "VERIF_OUT": outp, "VERIF_SEED": str(ctx.seed)})
+    files = {"zz_verif_c07_test.go": os.path.join(HARNESS, "overlay/pickle/zz_verif_c07_test.go")}
+    env = {"VERIF_IN": inp, "VERIF_OUT": outp, "VERIF_SEED": str(ctx.seed)}
+    pat = "^TestVerifPickle$"
+    ctx.conc = None
+    if conc_lines is not None:
+        # file name sorts after zz_verif_c07_test.go so that the round-trip cases run first
+        files["zz_verif_c07_zconc_test.go"] = os.path.join(HARNESS, "overlay/pickle/zz_verif_c07_conc_test.go")
+        cin, cout = os.path.join(ctx.tmp, "%s.conc.in" % tag), os.path.join(ctx.tmp, "%s.conc.out" % tag)
+        with open(cin, "w") as f:
+            f.write("\n".join(conc_lines) + "\n")
+        env.update({"VERIF_CONC_IN": cin, "VERIF_CONC_OUT": cout})
+        pat = "^(TestVerifPickle|TestVerifPickleIsolation)$"
+    rc, o = ctx.go_overlay_test("pickle", files, pat, env)
+    if conc_lines is not None:
+        ctx.conc = read_conc(cout)
     res, oracles, begun = {}, [], None
     if os.path.exists(outp):
         for line in open(outp, errors="replace"):
@@ -686,7 +853,20 @@ def run_inner(ctx):
     rng = random.Random(ctx.seed)
     cases = gen_c07(rng, ctx.quick())
     lines = ["rt\t%d\t%s" % (i, go_desc(c[1], c[2])) for i, c in enumerate(cases)]
-    rc, o, res, oracles = run_pickle_harness(ctx, lines, "c07")
+    groups = gen_isolation(random.Random(ctx.seed * 7919 + 13), cases, ctx.quick())
+    rc, o, res, oracles = run_pickle_harness(ctx, lines, "c07", conc_lines=[conc_line(g) for g in groups])
+    conc = ctx.conc or {"done": {}, "oracles": [], "begun": None}
+    if rc != 0 and ctx.died_on is None and conc["begun"] is not None and conc["begun"] not in conc["done"]:
+        g = [x for x in groups if x[0] == conc["begun"]][0]
+        ctx.log(o[-1500:])
+        report_isolation(ctx, groups)
+        ctx.violation("the process died or deadlocked while %d codec instances ran interleaved (policy %s, seed %d), members %s"
+                      % (2 * len(g[4]), g[1], g[2], [m[2][:80] for m in g[4]][:4]),
+                      {"oracle": "process-died", "policy": g[1], "schedule_seed": g[2], "reader_chunk": g[3],
+                       "group": [{"id": x[0], "class": x[1], "description": x[2][:20000]} for x in g[4]], "output_tail": o[-1500:],
+                       "how": "TestVerifPickleIsolation in harness/overlay/pickle/zz_verif_c07_conc_test.go: VERIF_CONC_IN line "
+                              + conc_line(g)[:200000]})
+        return
     if rc != 0 and ctx.died_on is not None:
         c = cases[ctx.died_on]
         ctx.log(o[-1500:])
@@ -737,6 +917,12 @@ def run_inner(ctx):
     ctx.add_samples([[c[0], go_desc(c[1], c[2])[:120], res[i][3][:80]] for i, c in list(enumerate(cases))[::max(1, len(cases) // 5)]])
 
     unexpected = []     # oracle failures other than the known finding
+    if report_isolation(ctx, groups):
+        unexpected.append(["ORACLE", "isolation"])
+    if len(conc["done"]) != len(groups):
+        ctx.violation("the isolation harness ran %d of %d groups" % (len(conc["done"]), len(groups)),
+                      {"theorem_or_correspondence": "C07 isolation harness (TestVerifPickleIsolation)", "output": o[-1500:]},
+                      found_input=False)
     for f in oracles:
         if f[2].isdigit() and f[1] == "roundtrip" and cases[int(f[2])][0] == KNOWN_HOST_CYCLE_CLASS:
             i = int(f[2])
